@@ -223,7 +223,15 @@ def run_stage(run: "Run", stage: str, only: Optional[set] = None) -> None:
 
     mod = importlib.import_module(f"sa.rules.{stage}")
     sub = Run(stage.upper(), run.model, run.tier, run.seed)
-    mod.check(sub)
+    try:
+        mod.check(sub)
+    except AnalysisError as e:
+        # a part of the stage that this property does not depend on could not be read: what was asked for has been
+        # evaluated (its obligations are recorded) - otherwise the refusal is this property's too
+        done = {o.get("rule") for o in sub.obligations}
+        if only is None or not (set(only) <= done) or (sub.obligations and sub.obligations[-1].get("rule") in only):
+            raise  # (the last thing evaluated belongs to what was asked for: the refusal may have come from there)
+        run.notes.setdefault("stage_refusals", {})[stage.upper()] = str(e)[:200]
     for o in sub.obligations:
         if only is not None and o.get("rule") not in only:
             continue
